@@ -143,6 +143,8 @@ pub fn run_check(id: &str, tier: &str) -> i32 {
         "C07" => c07(tier, thorough),
         "C09" => c09(tier, thorough),
         "C17" => c17(tier, thorough),
+        "C04" => c04(tier, thorough),
+        "C16" => c16(tier, thorough),
         _ => {
             eprintln!("unknown check {}", id);
             2
@@ -737,6 +739,39 @@ fn c17(tier: &str, thorough: bool) -> i32 {
     ctx.finish(hists.len() as u64, steps)
 }
 
+fn c04(tier: &str, thorough: bool) -> i32 {
+    let ctx = leak(Ctx::new("C04", tier, level_mc(), "e2", &["layout", "model", "spec", "reopen"]));
+    common_assumptions(ctx);
+    ctx.assume("the independent writer (synth.rs) is trusted after triangulation: every synthesised file must pass the independent checker and decode to its content before the library sees it");
+    ctx.set_rule("for each logical content (8 small trees with sizes around 64 / 4096 / sector boundaries) every layout dimension is enumerated completely with the others canonical: all sector permutations (<= 6-7 logical sectors; rotations / swaps / reversal beyond), interior and trailing free sectors, all mini-sector permutations with gaps, all injective directory slot maps over two directory sectors, all sibling-tree shapes x all colourings without adjacent reds (fully valid red-black ones must open strictly), 0/1/2 DIFAT sectors, both versions; oracle: open succeeds and the view equals the encoded content incl. lookups under case variants; then every one-op (thorough: two-op) mutation under the full E1 oracle");
+    let mut files = 0u64;
+    let mut steps = 0u64;
+    for v in [3u16, 4] {
+        let st = crate::e2::explore_layouts(ctx, v, thorough);
+        ctx.note(format!("v{}: synthesised files={} (fully valid red-black {}), cases={} mutation steps={}", v, st.files, st.rb_valid, st.cases, st.steps));
+        files += st.files;
+        steps += st.cases + st.steps;
+        ctx.add("synthesised_files", st.files);
+        ctx.add("mutation_steps", st.steps);
+    }
+    ctx.finish(files, steps)
+}
+
+fn c16(tier: &str, thorough: bool) -> i32 {
+    let ctx = leak(Ctx::new("C16", tier, level_mc(), "e2", &["leniency", "layout"]));
+    common_assumptions(ctx);
+    ctx.set_rule("for every base file (8 contents x canonical / permuted / DIFAT-sector layouts x versions) every documented deviation is injected at every applicable place (each FAT/DIFAT sector marker with each wrong value, every stream and storage entry, every red-red edge, every name, each header count with +-1/0/large), singly and in all pairs of different kinds; permissive must accept and expose the undamaged content, strict must reject (the header FREESECT variant is accepted by both by design); whenever strict accepts, permissive must accept with the same view. The strict-accept => permissive-same clause is additionally checked on every corrupted input of the C05 sweep");
+    let mut files = 0u64;
+    let mut cases = 0u64;
+    for v in [3u16, 4] {
+        let st = crate::e2::explore_deviations(ctx, v, thorough);
+        ctx.note(format!("v{}: base files={} deviation cases={}", v, st.files, st.cases));
+        files += st.files;
+        cases += st.cases;
+    }
+    ctx.finish(files.max(1), cases)
+}
+
 fn c18_histories(v: u16, depth: usize, sizes: &[usize]) -> Vec<History> {
     let a = DataAlpha { paths: vec!["/s", "/d/t"], rewrite: sizes.to_vec(), setlen: vec![0, 70, 4096], append: vec![100], patch: vec![(1, 3)], remove: true };
     let mut ops = data_ops(&a);
@@ -832,6 +867,26 @@ pub fn replay(path: &str) -> i32 {
             } else {
                 for v in &res.violations {
                     println!("VIOLATION-REPLAYED class={} {}", v.class, v.msg);
+                }
+                1
+            }
+        }
+        "layout" => {
+            let c: crate::e2::LayoutCase = match serde_json::from_value(case["layout"].clone()) {
+                Ok(c) => c,
+                Err(e) => {
+                    eprintln!("bad layout case: {}", e);
+                    return 2;
+                }
+            };
+            println!("replaying layout case: content {} v{} deviation '{}' ops {:?}", c.content, c.layout.version, c.deviation, c.ops);
+            let p = crate::e2::run_case(&c);
+            if p.is_empty() {
+                println!("no violation on replay");
+                0
+            } else {
+                for (class, msg) in &p {
+                    println!("VIOLATION-REPLAYED class={} {}", class, msg);
                 }
                 1
             }
